@@ -1,6 +1,7 @@
 """C19 — incentive payouts never exceed their funding and follow farmed share.
 spec/gauge/Gauge.tla (one text over an abstract algebra of naturals; GaugeInt = TLC integers, GaugeLimbs = real-size amounts);
-MC_Split (exhaustive split table) ; MC_Gauge (bounded gauge lifecycles) ; every model transition is executed on the real
+MC_Split (exhaustive split table) ; MC_Gauge (bounded gauge lifecycles incl. the swap-fee gauges of the pools, fee arrival and
+governance changes of the fee distribution denom) ; every model transition is executed on the real
 x/rewards + x/liquidity code (split vectors; walk of the model's transition graph on cache branches of the real app) ;
 seeded multi-gauge / multi-pool / multi-farmer behaviours incl. external reward programs ; Trace_Gauge judges every recorded state."""
 import os
@@ -12,33 +13,39 @@ META = dict(
               "transition replayed on the real code (graph walk on nested cache contexts); recorded behaviours of the real code "
               "(model walk + seeded random drivers with real-size amounts) judged by the TLC trace spec",
     text="Gauge.tla transcribes SplitTotalAmountPerEpoch, the epoch clock (TriggerAndUpdateEpochInfos incl. the skipped-epoch branch), "
-         "MsgCreateGauge validation and the per-gauge epoch step; the farmed value used for the share (single pool; master/child = min of "
-         "master value and aggregated child value, cross-multiplied rationals) is computed by the spec from recorded pool reserves, prices, "
-         "decimals and farmed amounts. Payouts are float results of the code: they are taken from the log (balance deltas of every account) "
-         "and judged by the laws: split sums to the deposit; what leaves custody in an epoch <= that epoch's allocation; distributed <= "
-         "deposit; payout*total*10^12 <= alloc*value*(10^12+1) per farmer (C19_ProRataLetter; C19_ProRata adds the value*10^-18 slack of the code's "
-         "18-decimal multiplier and is never masked); custody >= undistributed remainders of active gauges + "
-         "available of external programs per denom (root absolutely, every step in delta form). Exhaustive for the bounded models, "
-         "sampled beyond them.",
+         "MsgCreateGauge validation, the per-gauge epoch step of created gauges and of the swap-fee gauges every pool creation registers "
+         "(deposit = fees pulled from the pair's collector in the app's current SwapFeeDistrDenom minus the burn share; deposit and distributed "
+         "total carry their own denoms, so a governance change of the distribution denom restarts both per denom). The farmed value used for "
+         "the share (single pool; master/child = min of master value and aggregated child value, cross-multiplied rationals) is computed by the "
+         "spec from recorded pool reserves, prices, decimals and farmed amounts. Payouts are taken from the log (balance deltas of every "
+         "account) and judged by the laws: split sums to the deposit; what leaves custody in an epoch <= that epoch's allocation (swap-fee "
+         "gauge: its deposit); distributed <= deposit; payout*total*10^12 <= alloc*value*(10^12+1) per farmer (the bound as stated); custody >= "
+         "undistributed remainders of active gauges (swap-fee gauge: its deposit, in the deposit's denom) + available of external programs per "
+         "denom (root absolutely, every step in delta form). Conformance predicts the code exactly: payout = floor(alloc*value/total), gauge "
+         "books, epoch clock, fee pull and burn. Exhaustive for the bounded models, sampled beyond them.",
     note="Trusted: TLC + Json module; the projection (keeper getters, bank balances); farmed amounts are valued with amm.Withdraw at zero fee "
          "(the spec only checks that they do not exceed the proportional share of the reserves). Asset decimals are powers of ten. "
-         "Payout attribution by balance deltas is only done when a gauge is the sole payer of its denom in a block. In the model walk a "
-         "farm message is followed by the real queue-activation routine run with a shifted clock; the random drivers let the queue run naturally. "
+         "Payout attribution by balance deltas is only done when a gauge is the only one whose books show a payout in that denom in the block. "
+         "In the model walk a farm message is followed by the real queue-activation routine run with a shifted clock; the random drivers let "
+         "the queue run naturally. Governance changes (SwapFeeDistrDenom, SwapFeeBurnRate) are written with the liquidity keeper's "
+         "SetGenericParams; swap fees are sent to the pair's collector address (no swaps are executed). "
          "External reward programs: locker programs (real locker messages) and lend programs are exercised; the lend positions the lend programs pay to are "
          "fixture records written with the lend keeper's setters (app with kill switch on, so the unwrapped V2 borrow-liquidation sweep ignores them); "
          "vault / stable-mint programs only have their books projected (none is created).",
     design_ref="4 C19",
 )
 
-FORMULAS = ["C19_SplitSum", "C19_Cumulative", "C19_CustodyRoot", "C19_CustodyDelta", "C19_EpochCap", "C19_OnlyInEpoch", "C19_ProRata",
-            "C19_ProRataLetter"]
+FORMULAS = ["C19_SplitSum", "C19_Cumulative", "C19_CustodyRoot", "C19_CustodyDelta", "C19_EpochCap", "C19_OnlyInEpoch", "C19_ProRata"]
 
 
-def _cfg(path, name, nu, maxfarm, maxg, tpl, steps, pools, amts, modes, emit):
+def _cfg(path, name, nu, maxfarm, maxg, tpl, steps, pools, amts, modes, emit, swap=None):
+    sw = "WithSwap = FALSE  FeeAmts = {}  FeeBudget = 0  FeeDenoms = {}  GovBudget = 0"
+    if swap:
+        sw = "WithSwap = TRUE  FeeAmts = %s  FeeBudget = %d  FeeDenoms = {101, 102}  GovBudget = %d" % swap
     with open(os.path.join(path, name), "w") as f:
         f.write("SPECIFICATION Spec\nCONSTANTS NU = %d  MaxFarm = %d  MaxGauges = %d  Templates <- %s  Steps = %s  D = 2  FarmPools = %s  "
-                "Amts = %s  Modes = %s  Emit = %s\nINVARIANTS Cumulative Custody SplitExact Finished\nCHECK_DEADLOCK FALSE\n"
-                % (nu, maxfarm, maxg, tpl, steps, pools, amts, modes, "TRUE" if emit else "FALSE"))
+                "Amts = %s  Modes = %s  Emit = %s\n  %s\nINVARIANTS Cumulative Custody SplitExact Finished\nCHECK_DEADLOCK FALSE\n"
+                % (nu, maxfarm, maxg, tpl, steps, pools, amts, modes, "TRUE" if emit else "FALSE", sw))
 
 
 def run(c):
@@ -57,17 +64,20 @@ def run(c):
     dist += r["distinct"]
     # (b) gauge lifecycles, exhaustive bounded models; the dumps are walked on the real application
     Q, OFF = '{"q", "b", "off"}', '{"q", "off"}'
-    models = [("single", 2, 2, 1, "TplSingle", "{1, 3, 5}", "{1}", "{1, 2}", Q),
-              ("master", 2, 1, 1, "TplMaster", "{1, 3, 5}", "{1, 2}", "{1}", OFF)]
+    # last field: swap-fee gauges in the model (fee amounts, number of fee arrivals, number of denom changes); None = created gauges only
+    models = [("single", 2, 2, 1, "TplSingle", "{1, 3, 5}", "{1}", "{1, 2}", Q, None),
+              ("master", 2, 1, 1, "TplMaster", "{1, 3, 5}", "{1, 2}", "{1}", OFF, None),
+              ("swapfee", 1, 1, 1, "TplFee", "{3}", "{1}", "{1}", '{"q"}', ("{3}", 1, 1))]
     if not quick:
-        models += [("single3", 3, 2, 1, "TplSingle", "{1, 3, 5}", "{1}", "{1, 2}", Q),
-                   ("masterall", 2, 1, 1, "TplMasterAll", "{1, 3, 5}", "{1, 2}", "{1}", OFF),
-                   ("twoA", 1, 1, 2, "TplTwo", "{3}", "{1, 2}", "{1}", '{"q"}'),
-                   ("twoB", 2, 1, 2, "TplTwo", "{3}", "{1}", "{1}", '{"q"}')]
+        models += [("single3", 3, 2, 1, "TplSingle", "{1, 3, 5}", "{1}", "{1, 2}", Q, None),
+                   ("masterall", 2, 1, 1, "TplMasterAll", "{1, 3, 5}", "{1, 2}", "{1}", OFF, None),
+                   ("twoA", 1, 1, 2, "TplTwo", "{3}", "{1, 2}", "{1}", '{"q"}', None),
+                   ("twoB", 2, 1, 2, "TplTwo", "{3}", "{1}", "{1}", '{"q"}', None),
+                   ("swapfee2", 2, 1, 1, "TplFee", "{3}", "{1}", "{1}", '{"q"}', ("{3}", 1, 1))]
     graphs, mstats = [], {}
-    for (name, nu, mf, mg, tpl, steps, pools, amts, modes) in models:
+    for (name, nu, mf, mg, tpl, steps, pools, amts, modes, swap) in models:
         cfg = "MC_Gauge_%s_run.cfg" % name
-        _cfg(wd, cfg, nu, mf, mg, tpl, steps, pools, amts, modes, True)
+        _cfg(wd, cfg, nu, mf, mg, tpl, steps, pools, amts, modes, True, swap)
         tf = os.path.join(wd, "G_%s.txt" % name)
         r = vlib.model_check(wd, "MC_Gauge", cfg, workers=1, tfile=tf, timeout=2400)
         gen += r["generated"]
@@ -87,10 +97,11 @@ def run(c):
     if quick:
         parts = [dict(vectors=tsplit, graphs=graphs, first=0, runs=24, steps=90, nbig=300)]
     else:
-        parts = [dict(vectors=tsplit, graphs=graphs[:2], first=0, runs=0, steps=0, nbig=3000),
-                 dict(vectors="", graphs=graphs[2:3], first=0, runs=0, steps=0, nbig=0),
+        parts = [dict(vectors=tsplit, graphs=graphs[:3], first=0, runs=0, steps=0, nbig=3000),
                  dict(vectors="", graphs=graphs[3:4], first=0, runs=0, steps=0, nbig=0),
-                 dict(vectors="", graphs=graphs[4:], first=0, runs=100, steps=140, nbig=0),
+                 dict(vectors="", graphs=graphs[4:5], first=0, runs=0, steps=0, nbig=0),
+                 dict(vectors="", graphs=graphs[7:8], first=0, runs=0, steps=0, nbig=0),
+                 dict(vectors="", graphs=graphs[5:7], first=0, runs=100, steps=140, nbig=0),
                  dict(vectors="", graphs=[], first=100, runs=200, steps=140, nbig=0)]
     st, nnodes, outs, tstates = {}, 0, [], 0
     smp = [None, None, None]
@@ -132,7 +143,8 @@ def run(c):
             os.remove(lnk)
     c.samples = [dict(id=s["id"], run=s["run"], a=s["a"], args=s["args"], parent=s["parent"],
                       st=dict(s["st"], users=s["st"].get("users", [])[:2]) if "users" in s["st"] else s["st"]) for s in smp if s]
-    need = ["splits", "bigSplits", "gaugeEpochs", "proRataPaid", "masterPaid", "skippedEpochBlocks", "created", "rejected", "gaugesEnded",
+    need = ["swapDenomSwitch", "swapNewDenomPaid", "swapProRataPaid", "swapBurnEpochs", "swapSharedDenomPaid", "govDenomChanges", "multiPoolSwapPaid",
+            "splits", "bigSplits", "gaugeEpochs", "proRataPaid", "masterPaid", "skippedEpochBlocks", "created", "rejected", "gaugesEnded",
             "noPriceEpochs", "swapFeePaid", "extPayBlocks", "lendPayBlocks", "bigStates", "roots"]
     zero = [k for k in need if st.get(k, 0) == 0]
     if zero and not c.violations:   # a violation on real-code states is a verdict even if other antecedents were not exercised
@@ -143,14 +155,19 @@ def run(c):
         harness=outs,
         exhaustive=True,
         rule="(a) every (deposit, epochs) pair of the split table is one vector on the real SplitTotalAmountPerEpoch (+ seeded real-size vectors up to 2^64-1); "
-             "(b) every transition of the bounded MC_Gauge models (create/reject gauge, farm/unfarm by 2-3 farmers, price quote/base/off, time steps "
-             "below, at and beyond two epoch durations, master/child gauges) is executed once on the real application by walking the model's "
+             "(b) every transition of the bounded MC_Gauge models (create/reject gauge, farm/unfarm by 1-3 farmers, price quote/base/off, time steps "
+             "below, at and beyond two epoch durations, master/child gauges; model 'swapfee': the pools' swap-fee gauges, fee arrival, change of the "
+             "distribution denom, a created gauge paid in a fee denom) is executed once on the real application by walking the model's "
              "transition graph on nested cache contexts; (c) seeded behaviours: up to ~12 gauges over 3 pools, 4 farmers, own and shared reward denoms, "
-             "real-size amounts (6/8/18 decimals), natural queue activation, price loss/recovery, reserve donations, swap-fee gauges, locker reward "
+             "real-size amounts (6/8/18 decimals), natural queue activation, price loss/recovery, reserve donations, swap-fee gauges with fees arriving in the "
+             "current / a stale distribution denom, governance changes of SwapFeeDistrDenom and SwapFeeBurnRate, a ranged pool sharing pool 1's pair "
+             "(one fee collector for two gauges) in half of the runs, gauges created in the fee denoms, locker reward "
              "programs, lend (borrower) reward programs paid in a priced asset that gauges also use. Every recorded state is a TLC state of Trace_Gauge."),
         assumptions=["asset decimals are powers of ten (exact sdk.Dec valuation)",
                      "per-farmer payouts are attributed by balance deltas only when the gauge is the only payer of its denom in that block "
                      "(aggregate laws are judged always)",
-                     "deposits <= 10^18 and per-farmer rewards < 2^63 (the code converts the float reward with int64() and the deposit with Uint64())",
+                     "deposits of created gauges <= 10^18 (SplitTotalAmountPerEpoch takes the deposit as Uint64())",
+                     "conformance of swap-fee gauges is predicted for pairs with one pool (the value-weighted split of a collector between several pools is "
+                     "not transcribed; the C19 laws are judged for them too); swap fees arrive by bank transfer to the collector",
                      "external programs: locker and lend programs run (lend positions are fixture records written with the lend keeper's setters); "
                      "vault / stable-mint programs are projected but not created by the drivers"])
